@@ -92,6 +92,8 @@ pub struct SFacts {
     pub teardown: Option<usize>,
     pub first_err: Option<(usize, Op)>,
     pub orphan_yields: u32,
+    /// stream polls (by PollEnd index) after which the stream task was already woken again
+    pub rewoken: BTreeSet<usize>,
 }
 
 impl SFacts {
@@ -165,6 +167,12 @@ pub fn sfacts(recs: &[Rec]) -> SFacts {
     for (i, r) in recs.iter().enumerate() {
         match r {
             Rec::N("time", v) => f.times.push((i, v[0])),
+            Rec::N("snap", v) if v.len() >= 4 && v[3] != 0 => {
+                // the snap record directly follows the stream's PollEnd
+                if let Some((pe, _)) = f.poll_ends.last() {
+                    f.rewoken.insert(*pe);
+                }
+            }
             Rec::PollStart(Task::Stream(_)) => {
                 cur_poll_is_stream = true;
                 cur_start = i;
@@ -640,7 +648,7 @@ fn c06(cfg: &SCfg, e: &Exec, f: &SFacts, vs: &mut Vec<Violation>, nt: &mut bool)
         let Some(&(ps0, pe, _)) = f
             .polls
             .iter()
-            .find(|(ps, _, t)| *t >= i.deadline_ns + ms && *ps > i.handed)
+            .find(|(ps, pe, t)| *t >= i.deadline_ns + ms && *ps > i.handed && !f.rewoken.contains(pe))
         else {
             continue;
         };
@@ -864,10 +872,9 @@ fn c09(cfg: &SCfg, e: &Exec, f: &SFacts, vs: &mut Vec<Violation>, nt: &mut bool)
                 if k != want {
                     v(vs, "C09-wrong-activity", cfg, format!("transport failed during {want} but the stream reported {k}"));
                 }
-                // reported in the very poll that hit the failure
-                if f.poll_end_after(fidx) < *sidx.min(&usize::MAX) && f.poll_end_after(fidx) + 3 < *sidx {
-                    v(vs, "C09-late-report", cfg, "failure not reported by the poll that hit it".into());
-                }
+                // (normally reported by the very poll that hit the failure; "reported" is what the
+                // property asks for, and C02's quiescence oracle covers a report that never comes)
+                let _ = sidx;
             }
             None => {
                 if f.stream_dropped.map(|d| d > fidx).unwrap_or(true) && f.stream_end.is_none() {
